@@ -260,5 +260,176 @@ func propTable() map[string]PropSpec {
 	t["C05"] = PropSpec{ID: "C05", Quick: mux(false, []string{"C05."}), Thorough: mux(true, []string{"C05."}), Bounds: muxBounds, Outside: muxOutside, Assumptions: muxAssume}
 	t["C17"] = PropSpec{ID: "C17", Quick: mux(false, []string{"C17."}), Thorough: mux(true, []string{"C17."}), Bounds: muxBounds, Outside: muxOutside, Assumptions: muxAssume}
 	t["C01"] = PropSpec{ID: "C01", Quick: mux(false, []string{"C01.", "C12.data"}), Thorough: mux(true, []string{"C01.", "C12.data"}), Bounds: muxBounds, Outside: muxOutside, Assumptions: muxAssume}
+	// ---- demuxer properties ----
+	c02 := func(th bool) []TaskSpec {
+		pes := [][]int64{{1, 1, 0}, {10, 1, 0}, {40, 0, 0}, {200, 1, 1}, {400, 0, 1}}
+		psi := [][]int64{{1, 1, 0, 0}, {1, 2, 1, 0}, {1, 3, 4, 2}, {0, 1, 0, 0}, {0, 2, 0, 0}, {0, 3, 1, 3}}
+		if th {
+			pes = append(pes, [][]int64{{60, 1, 0}, {60, 0, 0}, {170, 1, 0}, {190, 0, 1}, {552, 1, 1}}...)
+			psi = append(psi, [][]int64{{1, 2, 0, 3}, {1, 4, 1, 0}, {0, 4, 4, 0}, {0, 2, 1, 2}}...)
+		}
+		return []TaskSpec{
+			{Harness: "HarnessC02PES", ArgSets: pes, Reach: []string{"C02.pes.end"}},
+			{Harness: "HarnessC02PSI", ArgSets: psi, Reach: []string{"C02.psi.end"}},
+			{Harness: "HarnessC02Mixed", ArgSets: [][]int64{{0}, {1}}, Reach: []string{"C02.mixed.end"}},
+		}
+	}
+	t["C02"] = PropSpec{ID: "C02", Quick: c02(false), Thorough: c02(true),
+		Bounds: map[string]string{
+			"quick":    "PES units (payload 1/10/40 bytes: every split point incl. 1-byte first/last chunks; 200/400 bytes over 2-3 packets with first chunk in {1,2,9,183,184}), bounded and unbounded PES_packet_length, followed by a second unit, symbolic PID/counter/payload/PTS; PSI units of 1..3 sections on the PAT PID (early delivery) and the SDT PID, pointer_field {0,1,4} with arbitrary filler, trailing 0xFF {0,2,3} or AF stuffing, every split point that keeps each section start in the first packet (ISO 13818-1 2.4.4); PAT->PMT, two PES units and a two-section SDT unit on 4 PIDs in all 210 order-preserving interleavings, with the no-read-ahead check on the reader position",
+			"thorough": "more payload sizes (up to 552 bytes / 4 packets) and section counts up to 4",
+		},
+		Outside: "more than 4 PIDs; units longer than 4 packets; PSI layouts in which a section starts in a continuation packet or the previous section's tail sits in the pointer area (outside the property's reference multiplexer, observation O1 in DESIGN.md)"}
+	c06 := func(th bool) []TaskSpec {
+		acc := [][]int64{{2, 5}, {3, 4}}
+		if th {
+			acc = append(acc, []int64{3, 5}, []int64{4, 4})
+		}
+		return []TaskSpec{
+			{Harness: "HarnessC06Dup", ArgSets: [][]int64{{0}, {1}}, Reach: []string{"C06.dup.end"}},
+			{Harness: "HarnessC06Loss", ArgSets: [][]int64{{1}, {2}, {3}}, Reach: []string{"C06.loss.end"}},
+			{Harness: "HarnessC06Acc", ArgSets: acc, Reach: []string{"C06.acc.end"}},
+		}
+	}
+	t["C06"] = PropSpec{ID: "C06", Quick: c06(false), Thorough: c06(true),
+		Bounds: map[string]string{
+			"quick":    "stream of 10 packets on 2 PIDs (4 PES units of 2,1,3,1 packets with wrapping counters; 2 SDT units): every single-packet duplication position (adjacent, or with one foreign packet in between) and every deletion of a run of 1..3 packets of one PID; accumulator level: 2-3 packets of one PID with symbolic continuity counters and header class in {payload, payload+PUSI, AF-only, discontinuity_indicator, TEI}, any payload packet duplicated",
+			"thorough": "accumulator level with 3-4 packets",
+		},
+		Outside: "bursts of 16 or more lost packets (excluded by the property); payload contents are fixed patterns in the end-to-end streams (timestamps symbolic)"}
+	c07 := func(th bool) []TaskSpec {
+		pool := [][]int64{{2, 1, 3}, {1, 2, 5}, {2, 2, 3}}
+		if th {
+			pool = append(pool, []int64{2, 2, 4}, []int64{3, 1, 3})
+		}
+		return []TaskSpec{
+			{Harness: "HarnessC07Pool", ArgSets: pool, Reach: []string{"C07.pool.end"}},
+			{Harness: "HarnessC07EOF", Reach: []string{"C07.eof.end"}},
+			{Harness: "HarnessC07Data", ArgSets: [][]int64{{0}, {10}, {37}, {2000}}, Reach: []string{"C07.data.end"}, Asserts: []string{"C07."}},
+			{Harness: "HarnessC07Garbage", Reach: []string{"C07.garbage.end"}},
+			{Harness: "HarnessC02Mixed", ArgSets: [][]int64{{0}}, Reach: []string{"C02.mixed.end"}},
+		}
+	}
+	t["C07"] = PropSpec{ID: "C07", Quick: c07(false), Thorough: c07(true),
+		Bounds: map[string]string{
+			"quick":    "packet pool: sequences of 2+1, 1+2 and 2+2 packets on two PIDs with symbolic counters and header classes, every order-preserving merge, one inserted null / TEI / adaptation-only packet at every position: groups flushed per PID equal those of the PID alone; EOF drain order for 3 symbolic PIDs; pooled payload buffer recycled with arbitrary stale contents of 0/10/37/2000 bytes; two junk packets of a foreign PID (arbitrary flags/counters, junk or PES-looking payload) at every pair of positions in a 5-packet stream; all 210 interleavings of the 4-PID stream of C02",
+			"thorough": "2+2 with 4 classes, 3+1 packets",
+		},
+		Outside: "more than two active PIDs plus one noise PID at the pool level"}
+	c08 := func(th bool) []TaskSpec {
+		var chunks, autos, sizes [][]int64
+		for kind := int64(0); kind <= 2; kind++ {
+			for auto := int64(0); auto <= 1; auto++ {
+				chunks = append(chunks, []int64{kind, auto, 188})
+				if th {
+					chunks = append(chunks, []int64{kind, auto, 192})
+				}
+			}
+			for sz := int64(188); sz <= 192; sz++ {
+				autos = append(autos, []int64{kind, sz})
+			}
+		}
+		chunks = append(chunks, []int64{0, 0, 204}, []int64{1, 0, 192})
+		for _, k := range []int64{4, 16} {
+			for _, f := range []int64{0, 16, 31} {
+				sizes = append(sizes, []int64{k, 3, f})
+			}
+			sizes = append(sizes, []int64{k, 1, 0}, []int64{k, 2, 18})
+		}
+		return []TaskSpec{
+			{Harness: "HarnessC08Chunks", ArgSets: chunks, Reach: []string{"C08.chunks.end"}},
+			{Harness: "HarnessC08Auto", ArgSets: autos, Reach: []string{"C08.auto.end"}},
+			{Harness: "HarnessC08Size", ArgSets: sizes, Reach: []string{"C08.size.end"}},
+		}
+	}
+	t["C08"] = PropSpec{ID: "C08", Quick: c08(false), Thorough: c08(true),
+		Bounds: map[string]string{
+			"quick":    "5-packet stream (PAT, PMT, 2 PES units) read through seekable / plain / bufio readers whose first three Read calls return at most c1,c2,c3 bytes for every (c1,c2,c3) in {1,2,100,size-1,size,size+1,193,400}^3, explicit and auto-detected size; auto-detection for every packet size 188..192 on every reader kind; packets carried in 188+4 and 188+16 bytes with arbitrary extra bytes for the C11 adaptation-field layouts, through parsePacket and through NextPacket with an explicit size; explicit sizes 192 and 204",
+			"thorough": "fragmentation also for 192-byte packets",
+		},
+		Outside: "more than three short reads per stream (each read goes through the same io.ReadFull loop); streams longer than 5 packets; table contents are concrete in these streams (auto-detection compares every byte with the sync byte)"}
+	c03 := func(th bool) []TaskSpec {
+		var pes, psi, prog [][]int64
+		maxPES, maxPSI := int64(16), int64(7)
+		if th {
+			maxPES, maxPSI = 24, 9
+		}
+		for n := int64(0); n <= maxPES; n++ {
+			pes = append(pes, []int64{n})
+		}
+		for n := int64(0); n <= maxPSI; n++ {
+			psi = append(psi, []int64{n})
+		}
+		for _, n := range []int64{0, 1, 187, 188, 189, 376, 377} {
+			for api := int64(0); api <= 1; api++ {
+				prog = append(prog, []int64{n, 188, api, api})
+			}
+		}
+		for _, n := range []int64{0, 100, 192, 193, 194, 400} {
+			prog = append(prog, []int64{n, 0, 0, 0}, []int64{n, 0, 1, 2})
+		}
+		prog = append(prog, []int64{385, 192, 1, 1}, []int64{410, 204, 0, 2}, []int64{601, 300, 1, 0})
+		return []TaskSpec{
+			{Harness: "HarnessC03PES", ArgSets: pes, Reach: []string{"C03.pes.ok", "C03.pes.err"}},
+			{Harness: "HarnessC03PSI", ArgSets: psi, Reach: []string{"C03.psi.end"}},
+			{Harness: "HarnessC03Progress", ArgSets: prog, Reach: []string{"C03.progress.end"}, MaxPaths: 400000},
+			{Harness: "HarnessC14Skip", ArgSets: [][]int64{{0}, {3}, {6}}, Reach: []string{"C14.skip.ok"}},
+		}
+	}
+	t["C03"] = PropSpec{ID: "C03", Quick: c03(false), Thorough: c03(true),
+		Bounds: map[string]string{
+			"quick":    "panic-freedom: parsePESData on every byte string of length 0..16 behind a start code; parsePSIData and isPSIComplete on every byte string of length 0..7; every descriptor tag with 0/3/6 arbitrary body bytes; (parsePacket on arbitrary adaptation fields is covered through the C11/C08 layouts and the progress harness). progress: NextPacket/NextData on inputs of length {0,1,187,188,189,376,377} (explicit 188) and {0,100,192,193,194,400} (auto-detect) plus sizes 192/204/300, where the sync byte and header bytes of every packet are arbitrary and the adaptation_field_length is one of {0,183,250}: every call consumes a packet or returns ErrNoMorePackets, which is sticky and reached within len/size+4 calls; seekable, plain and bufio readers",
+			"thorough": "PES up to 24 bytes, PSI up to 9 bytes",
+		},
+		Outside: "whole-stream arbitrary bytes through the full parser stack at once (path explosion): covered compositionally; parsePacket on 188 fully arbitrary bytes did not finish in 25 minutes and is not claimed"}
+	c18 := func(th bool) []TaskSpec {
+		var rd, wr [][]int64
+		for auto := int64(0); auto <= 1; auto++ {
+			for kind := int64(0); kind <= 2; kind++ {
+				rd = append(rd, []int64{auto, kind})
+			}
+		}
+		for one := int64(0); one <= 1; one++ {
+			wr = append(wr, []int64{0, one, 0}, []int64{2, one, 0})
+			for _, pi := range []int64{0, 2, 4, 3} {
+				wr = append(wr, []int64{1, one, pi})
+			}
+			if th {
+				wr = append(wr, []int64{1, one, 1}, []int64{1, one, 5})
+			}
+		}
+		return []TaskSpec{
+			{Harness: "HarnessC18Read", ArgSets: rd, Reach: []string{"C18.read.end"}},
+			{Harness: "HarnessC18Write", ArgSets: wr, Reach: []string{"C18.write.end"}},
+		}
+	}
+	t["C18"] = PropSpec{ID: "C18", Quick: c18(false), Thorough: c18(true),
+		Bounds: map[string]string{
+			"quick":    "reader failing at byte offset f in {0,1,100,187,188,189,192,193,194,376,500,len-1,len} of a 5-packet stream (seekable/plain/bufio, explicit and auto-detected size); writer failing permanently or once on every single Write call index of WriteTables, WritePacket and WriteData whose last packet needs 0, 1, 2 and many stuffing bytes",
+			"thorough": "also payloads with a first-packet adaptation field and 3-packet units",
+		},
+		Outside: "partial acceptance of the failing Write (the fake writer accepts 0 bytes of the failing call)"}
+	t["C19"] = PropSpec{ID: "C19",
+		Quick: []TaskSpec{
+			{Harness: "HarnessC19Skip", ArgSets: [][]int64{{0}, {1}}, Reach: []string{"C19.skip.end"}},
+			{Harness: "HarnessC19Parser", ArgSets: [][]int64{{0}, {1}, {2}}, Reach: []string{"C19.parser.end"}},
+		},
+		Bounds:  map[string]string{"quick": "5-packet stream (PAT, PMT, 2 PES units, one with AF stuffing): all 2^5 per-packet skipper decisions for NextPacket and NextData against the pre-filtered stream, callback arguments checked against an independent parse; packets parser as observer, replacer and failing parser"},
+		Outside: "longer streams; predicates are arbitrary per-packet decisions, which subsumes every predicate over header/AF on this stream"}
+	t["C20"] = PropSpec{ID: "C20",
+		Quick: []TaskSpec{
+			{Harness: "HarnessC20Rewind", ArgSets: cross(ints(0, 1), ints(0, 1), ints(0, 1)), Reach: []string{"C20.rewind.end"}},
+		},
+		Bounds:  map[string]string{"quick": "5-packet stream (PAT precedes PMT) on a seekable reader: every number k of NextPacket (0..5) or NextData (0..4) calls before Rewind, Rewind repeated once with a second k, explicit and auto-detected size; the following full drain equals a fresh demuxer's"},
+		Outside: "longer streams"}
+	t["C16"] = PropSpec{ID: "C16",
+		Quick: []TaskSpec{
+			{Harness: "HarnessC16Alias", ArgSets: [][]int64{{0}, {1}}, Reach: []string{"C16.alias.end"}},
+			{Harness: "HarnessC07Data", ArgSets: [][]int64{{0}, {2000}}, Reach: []string{"C07.data.end"}, Asserts: []string{"C16."}},
+			{Harness: "HarnessMuxWriteData", ArgSets: [][]int64{{0, 2, 9, 0}, {1, 1, 13, 1}, {2, 2, 4, 0}}, Reach: []string{"mux.writedata.end"}, Asserts: []string{"C16."}},
+		},
+		Bounds:      map[string]string{"quick": "sequential aliasing only: every payload / private-data / PES data slice returned by NextPacket and NextData on a 5-packet stream is snapshotted and re-compared after every later call on the same demuxer and on a second demuxer sharing the buffer pool; recycled pool buffers; the Muxer leaves the caller's payload bytes unchanged"},
+		Outside:     "data races and true goroutine interleavings: the engine has no concurrency model (the technique family lists concurrency as out of reach); what is claimed is the absence of aliasing between returned slices and reused/pooled buffers in sequential use",
+		Assumptions: []string{"sync.Pool is modelled as a LIFO free list (Get after Put returns the same item)"}}
 	return t
 }
